@@ -54,7 +54,7 @@ def gen(rng, tier, index):
     cases = []
     for plan in plans:
         cases.append({
-            'desc': desc, 'sched': pargen.gen_sched(rng), 'epochs': 1,
+            'desc': desc, 'sched': pargen.gen_sched(rng), 'epochs': rng.choice([1, 1, 2]),
             'faults': plan, 'cost_seed': rng.randrange(1000),
             'think_seed': rng.randrange(1000), 'think_max': rng.choice([0, 0, 3]),
             'trace': trace})
